@@ -187,7 +187,7 @@ func (c *Ctx) c01NameIndex() {
 			}
 		}
 	}
-	L.Floor("name-index", 7, "6 renaming methods (8 stores) + setter")
+	L.Floor("name-index", 3, "6 renaming methods (8 stores) + setter (floor = half of the instances on the pinned tree: a clean-up may merge instances, a rule that sees nothing must still fail)")
 
 	// SetName call sites
 	nCalls := 0
@@ -499,7 +499,7 @@ func (c *Ctx) c01Length() {
 			L.Bad("length-writers", w, "stores align.length", "-", "a function outside the confirmed table writes the cached alignment length")
 		}
 	}
-	L.Floor("length-writers", 9, "writers of align.length confirmed by hand")
+	L.Floor("length-writers", 4, "writers of align.length confirmed by hand (floor = half of the instances on the pinned tree: a clean-up may merge instances, a rule that sees nothing must still fail)")
 
 	// (b) row replacement in *align methods must be followed by a length store
 	isLenStore := func(in ssa.Instruction) bool {
@@ -642,7 +642,7 @@ func (c *Ctx) c01Length() {
 			L.Check(ok, "length-after-row-change", name, cons, c.P.Pos(top.Pos()), "followed by a store to align.length on every path", "rows are extended and the cached length is not updated on some path")
 		}
 	}
-	L.Floor("length-after-row-change", 5, "RemoveCharacterSites, RemoveMajorityCharacterSites, TrimSequences x2, Compress, Split, Concat x2")
+	L.Floor("length-after-row-change", 2, "RemoveCharacterSites, RemoveMajorityCharacterSites, TrimSequences x2, Compress, Split, Concat x2 (floor = half of the instances on the pinned tree: a clean-up may merge instances, a rule that sees nothing must still fail)")
 
 	// provenance of every value stored to align.length
 	L.Rule("length-provenance", "every value stored to align.length is the constant -1 (empty), the length of a row or of the sequence being added (len(...)), a count of columns kept in step with the rows by another rule of this check (site removal, TrimSequences, Compress, Split's per-column counter, Concat's verified row length) — never a number computed from the old length by other arithmetic")
@@ -709,7 +709,7 @@ func (c *Ctx) c01Length() {
 			L.Check(okAll, "length-provenance", name, "value stored to length", pos, "stores "+strings.TrimSpace(kind), "the cached length is set to a value that is neither -1 nor the length of an actual row ("+strings.TrimSpace(kind)+"): it can disagree with the rows")
 		})
 	}
-	L.Floor("length-provenance", 9, "stores to align.length")
+	L.Floor("length-provenance", 4, "stores to align.length (floor = half of the instances on the pinned tree: a clean-up may merge instances, a rule that sees nothing must still fail)")
 
 	// site removal: the length decreases by exactly the number of removed columns
 	L.Rule("rebuild-partition", "in the row rebuild loop every column index executes exactly one of {append the residue to the new row, increment the removed counter}")
@@ -871,7 +871,7 @@ func (c *Ctx) c01Length() {
 		L.Check(okLen, "override-complete", "align.(*align)."+nme, cons, c.P.Pos(own.Pos()), "declared on *align; stores, verifies or delegates the cached length ("+changes[nme]+")",
 			"declared on *align but neither stores nor verifies the cached length")
 	}
-	L.Floor("override-complete", 5, "AddSequence, AddSequenceChar, Clear, Replace, Translate")
+	L.Floor("override-complete", 2, "AddSequence, AddSequenceChar, Clear, Replace, Translate (floor = half of the instances on the pinned tree: a clean-up may merge instances, a rule that sees nothing must still fail)")
 	_ = n
 }
 
@@ -1048,7 +1048,7 @@ func (c *Ctx) c01ByIndex() {
 			return "", false
 		})
 	}
-	L.Floor("by-index-guard", 6, "5 accessors, SetSequenceChar has 3 sites")
+	L.Floor("by-index-guard", 3, "5 accessors, SetSequenceChar has 3 sites (floor = half of the instances on the pinned tree: a clean-up may merge instances, a rule that sees nothing must still fail)")
 }
 
 func (c *Ctx) c01Filter() {
@@ -1108,5 +1108,5 @@ func (c *Ctx) c01Filter() {
 			}
 		}
 	}
-	L.Floor("filter-domain", 4, "three cases, four goals")
+	L.Floor("filter-domain", 2, "three cases, four goals (floor = half of the instances on the pinned tree: a clean-up may merge instances, a rule that sees nothing must still fail)")
 }
